@@ -549,11 +549,16 @@ def longPop (l : LongQ) : Res (LongQ × Elem) := do
   | none => pure ({ l with q := q }, none)
   | some id => pure ({ (l.clearIdx id) with q := q, lockCount := l.lockCount - 1 }, some id)
 
+/-- `lock.longWaitIndex` of lock `id`: (node, cell+1); (0, 0) when the lock carries none -/
+def lookIdx (l : LongQ) (id : Nat) : Nat × Nat :=
+  match l.idx.find? (fun e => e.1 == id) with
+  | some e => (e.2.1, e.2.2)
+  | none => (0, 0)
+
 /-- `queues[idx>>32][int32(idx&0xffffffff)-1] = nil` -/
 def longRemove (l : LongQ) (id : Nat) : Res LongQ :=
-  let (n, c) := match l.idx.find? (fun e => e.1 == id) with
-    | some e => (e.2.1, e.2.2)
-    | none => (0, 0)
+  let n := (lookIdx l id).1
+  let c := (lookIdx l id).2
   if c = 0 then .panic       -- index -1
   else
     match l.q.queues[n]? with
@@ -563,6 +568,11 @@ def longRemove (l : LongQ) (id : Nat) : Res LongQ :=
                                      freeCount := l.freeCount + 1 }
       else .panic
     | _ => .panic
+
+/-- `queueSize = baseQueueSize * int32(uint32(1)<<uint32(tailNodeIndex))`, capped at `QUEUE_MAX_MALLOC_SIZE` -/
+def longQueueSize (baseQueueSize T' : Nat) : Int :=
+  let qs := wrap32 ((baseQueueSize : Int) * shl1 T')
+  if qs > (maxMalloc : Int) then (maxMalloc : Int) else qs
 
 def longRestrRange (j : Nat) : Nat → Nat → LongQ → Res LongQ
   | _, 0, l => .ok l
@@ -601,9 +611,7 @@ def longRestructuring (l : LongQ) : Res LongQ := do
   let N := l.q.nodeIndex
   let (q, T') ← restrFree N N l.q
   let d := N - T'
-  let qs := wrap32 ((q.baseQueueSize : Int) * shl1 T')
-  let qs := if qs > (maxMalloc : Int) then (maxMalloc : Int) else qs
-  let q : Q := { q with queueSize := qs }
+  let q : Q := { q with queueSize := longQueueSize q.baseQueueSize T' }
   let n ← len q
   if q.nodeIndex < d then
     -- nodeIndex would be stored negative: Reset (empty queue) panics on nodeQueueSizes[negative]
